@@ -185,6 +185,30 @@ class Ctx:
             return pv
         raise BoundExceeded(f"more than {self.max_enum} values for {term}")
 
+    def value_set(self, term, limit: int = 4):
+        """All values `term` can take under the path condition, or None if more than `limit`."""
+        term = z3.simplify(term)
+        if z3.is_int_value(term):
+            return [term.as_long()]
+        vals = []
+        self.solver.push()
+        try:
+            while True:
+                r = self._check()
+                if r == "unknown":
+                    return None
+                if r == "unsat":
+                    return vals
+                if len(vals) >= limit:
+                    return None
+                v = self.solver.model().eval(term, model_completion=True)
+                if not z3.is_int_value(v):
+                    return None
+                vals.append(v.as_long())
+                self.solver.add(term != v)
+        finally:
+            self.solver.pop()
+
     def concretize_int(self, term) -> int:
         """Fork over the feasible values of an Int term (bounded enumeration)."""
         return self._concretize(term, z3.is_int_value, z3.IntVal, lambda v: v.as_long())
